@@ -5,6 +5,7 @@ CONSTANTS
   MaxOps = 100
   MaxInitTests = 5
   SwCloneCopiesSlices = TRUE
+  SwMergeFresh = TRUE
 INIT TraceInit
 NEXT TraceNext
 CHECK_DEADLOCK FALSE
